@@ -21,11 +21,11 @@ add("C01", "model-based testing: generated data-unit histories vs a from-scratch
     "non-ConformanceError is a violation. Both verdict directions are checked, so a rule that is dropped, weakened or over-strict shows up.",
     "Trusts the harness' stream model (oracles/stream_model.py, hand-translated level patterns) and a permissive level-constraint column "
     "appended in-process; unit blobs come from the encoder of the tree under test (C03 judges them).")
-add("C02", "mutation fuzzing (byte-, bit-field-, field- and unit-level) of valid streams with exception bucketing",
+add("C02", "structure-aware mutation fuzzing (byte-, bit-field-, field- and unit-level) + coverage-guided fuzzing (atheris) with exception bucketing",
     "Exploration: ~30k (quick) / ~2.9M (thorough) byte strings derived from 25 valid streams by stacked byte mutations, field-aware bit "
     "splices, description-level field/unit mutations and random data are run through init_io+parse_stream; outcome must be accept, "
     "ConformanceError (whose explain/str/offending_offset/viewer-hint must work) or out-of-scope; crashes are bucketed by root cause.",
-    "Size guard (per-field bounds) excludes streams declaring huge pictures; coverage-guided fuzzing (atheris) was not wired in: structure-aware mutation reached the crash classes blind mutation missed (DESIGN 1).")
+    "Size guard (per-field bounds) excludes streams declaring huge pictures. Thorough tier adds 16 coverage-guided libFuzzer jobs (atheris, oracle inside the target, exceptions bucketed) from empty and valid-stream corpora; quick tier is generator-only.")
 add("C03", "generated configurations: encode -> serialise -> validate round trip with format oracle",
     "Exploration: ~3k (quick) / ~380k (thorough) valid configurations constructed by Hypothesis x 1-3 pictures x numbering choice; the "
     "validator must accept and return the configured 20 video parameters, coding mode, picture count, order and numbers.",
@@ -39,7 +39,7 @@ add("C05", "generated configurations: run all decoder test-case generators; conf
     "stream must validate with the configured format, names unique, mid-grey cases exactly mid-grey, numbering cases as documented, "
     "re-encoded-header cases equal to the plain encoding of the same source.",
     "16x16 substitute natural pictures; signal_range only for cheap wavelet/depth classes; D7 is a listed known finding.")
-add("C06", "round-trip (deserialise -> serialise -> deserialise) over mutated streams",
+add("C06", "round-trip oracle (deserialise -> serialise -> deserialise) over mutated streams + coverage-guided fuzzing (atheris) in thorough",
     "Exploration: ~15k (quick) / ~1.5M (thorough) mutated/valid/random byte strings; every one the Deserialiser parses to completion must "
     "re-serialise to identical bytes and re-deserialise to an equal description.",
     "Only completed parses are judged; size guard on the (de)serialiser's slice loops.")
@@ -147,7 +147,7 @@ def main():
           for p in ALL if p not in CHECKS or not CHECKS[p].get("ready", True)]
     m = dict(
         version=1,
-        setup_cmd="/venv/bin/python -c 'import hypothesis' 2>/dev/null || /venv/bin/pip install --no-index --find-links /opt/veriftools/wheels --target /verif/.deps hypothesis",
+        setup_cmd="(/venv/bin/python -c 'import hypothesis' 2>/dev/null || /venv/bin/pip install -q --no-index --find-links /opt/veriftools/wheels --target .deps hypothesis) && (PYTHONPATH=.deps /venv/bin/python -c 'import atheris' 2>/dev/null || /venv/bin/pip install -q --no-index --find-links /opt/veriftools/wheels --target .deps atheris || true)",
         hooks=dict(
             guard="VC2_CONFORMANCE_VERIF",
             enable="no source hooks: checks import /repo's working tree directly (editable install / sys.path) and rebind module globals in-process",
@@ -156,6 +156,7 @@ def main():
             add_only=True,
         ),
         engines=[
+            dict(name="atheris-target", path="vpbt/fuzz/validator_target.py", serves_properties=["C02", "C06"], kind_free_text="libFuzzer (atheris) target with the C02/C06 oracles inside; used by the thorough tier"),
             dict(name="vpbt", path="vpbt/", serves_properties=sorted(p for p in CHECKS if CHECKS[p].get("ready", True)),
                  kind_free_text="property-based testing harness: Hypothesis strategies/state machines, exhaustive enumeration of finite boxes, sharded over 16 processes, explicit oracles, bucketed failures, replay files"),
         ],
